@@ -207,6 +207,14 @@
     (and (=> (and (<= 0 j) (< j (- (llen (splitAt s)) 1))) (= (lnth (splitAt (bcat s h)) j) (lnth (splitAt s) j)))
          (=> (= j (- (llen (splitAt s)) 1)) (= (lnth (splitAt (bcat s h)) j) (bcat (lnth (splitAt s) j) h)))))
   :pattern ((lnth (splitAt (bcat s h)) j) (noAt h)))))
+; wireOK s: s is a message in the wire format (some function name without '@', some argument list). Then the
+; parser's view (splitAt) and the message's view (wfunc / wcount / warg) agree. Consequences of the axioms above for
+; s = wire f l n; stated for an abstract s so that a contract can say "the emitted data is a wire-format message"
+; without naming the list it was built from.
+(declare-fun wireOK (BSeq) Bool)
+(assert (forall ((f BSeq) (l BList) (n Int)) (! (=> (and (noAt f) (> (blen f) 0) (>= n 0)) (wireOK (wire f l n))) :pattern ((wire f l n)))))
+(assert (forall ((s BSeq)) (! (=> (wireOK s) (and (>= (wcount s) 0) (= (llen (splitAt s)) (+ (wcount s) 1)) (= (lnth (splitAt s) 0) (wfunc s)) (noAt (wfunc s)) (> (blen (wfunc s)) 0))) :pattern ((wireOK s)))))
+(assert (forall ((s BSeq) (j Int)) (! (=> (and (wireOK s) (<= 1 j) (<= j (wcount s))) (= (lnth (splitAt s) j) (hex (warg s (- j 1))))) :pattern ((wireOK s) (lnth (splitAt s) j)))))
 ; ghost constants for lemma statements (existentially bound in the lemma's precondition)
 (declare-const ghostF BSeq)
 (declare-const ghostL BList)
